@@ -20,7 +20,7 @@ from ..callgraph import fkey
 from ..cfg import CFG, cond_atoms, flatten_conj
 from ..regexlang import MAXREPEAT, sre_parse
 from ..report import Check
-from ..source import AnalysisError, Project, ancestors, body_walk, dotted, enclosing_stmt, last_attr, norm, parent, short
+from ..source import AnalysisError, Project, ancestors, assign_targets, body_walk, dotted, enclosing_stmt, last_attr, norm, parent, short
 
 
 def run(chk: Check, proj: Project) -> None:
@@ -57,6 +57,31 @@ def s7_fresh_lexer(chk: Check, proj: Project, m, f) -> bool:
     chk.ob("S7", "util.template_parser:parse_template:fresh-lexer-per-round", m.loc((retarget or lex)[0]), ok,
            "the stock lexer is constructed inside the hand-over loop from the remaining slice" if ok else
            f"the stock lexer is created once and re-pointed (`{short(retarget[0]) if retarget else short(enclosing_stmt(lex[0]))}`): tokenize() leaves `verbatim` as it was at the END of the previous text, so after a hand-over inside/before an unterminated or oddly closed verbatim block all following tags are emitted as TEXT")
+    # the one piece of lexer state that must survive the switch: the open {% verbatim %} block
+    lv = next((norm(st.targets[0]) for st in stmts(f) if isinstance(st, ast.Assign) and st.value is lex[0] and isinstance(st.targets[0], ast.Name)), None)
+    sets = [st for st in stmts(f) if isinstance(st, ast.Assign) and isinstance(st.targets[0], ast.Attribute) and st.targets[0].attr == "verbatim" and norm(st.targets[0].value) == lv and inside(st)]
+    carried = False
+    why = "the fresh lexer always starts outside verbatim"
+    if sets and isinstance(sets[0].value, ast.Name):
+        V = sets[0].value.id
+        upd = [st for st in stmts(f) if isinstance(st, (ast.Assign, ast.AnnAssign)) and inside(st) and any(isinstance(t, ast.Name) and t.id == V for t, _v in assign_targets(st))]
+        # the update happens in the hand-over branch and is derived from the handed-over token's contents
+        def from_contents(e: ast.AST, depth: int = 0) -> bool:
+            if any(isinstance(x, ast.Attribute) and x.attr == "contents" for x in ast.walk(e)):
+                return True
+            if depth < 3:
+                for x in ast.walk(e):
+                    if isinstance(x, ast.Name):
+                        for _s, v in assignments(f, x.id):
+                            if v is not None and v is not e and from_contents(v, depth + 1):
+                                return True
+            return False
+
+        carried = any(st.value is not None and from_contents(st.value) and any(isinstance(x, ast.Constant) and isinstance(x.value, str) and "verbatim" in x.value for y in [st.value] + [v for n2 in ast.walk(st.value) if isinstance(n2, ast.Name) for _s, v in assignments(f, n2.id) if v is not None] for x in ast.walk(y)) for st in upd)
+        why = f"`{V}` is not updated from the handed-over token's contents"
+    chk.ob("S7", "util.template_parser:parse_template:verbatim-state-carried", m.loc(sets[0]) if sets else m.loc(lex[0]), carried,
+           "the resuming lexer's `verbatim` is set from a variable that the hand-over branch derives from the fixed token's contents" if carried else
+           f"{why}: a `{{% verbatim \"x\" %}}` tag (it contains a quote, so it is handed over) is followed by a lexer that tokenizes the block's content ({{{{ a }}}} becomes a VAR token) although stock Django keeps it as TEXT")
     return ok
 
 
